@@ -317,14 +317,20 @@ def table_plain(tbl):
                 return False
         elif not a < b:
             return False
-    # no name may be both a leaf/list and a dictionary, nor two different leaf kinds
+    # no name may be both a leaf/list and a dictionary, nor two different leaf kinds; a list ("x[]") may be
+    # named by ONE key string only (a run of equal rows, as DhtMessage's two "e[]*" rows): the reader fills
+    # consecutive rows only while their keys are strcmp-equal, so "ab[]*" followed by "ab[]*L" is not a
+    # table the code supports (no real table has that shape)
     names = {}
+    list_owner = {}
     for k in keys:
         path, leaf, raw = G.parse_key(k)
         pre = b""
         for name, kd in path:
             pre += name
             if names.setdefault(pre, kd) != kd:
+                return False
+            if kd == "l" and list_owner.setdefault(pre, k) != k:
                 return False
             pre += b"::" if kd == "d" else b"[]"
         if not (path and path[-1][1] == "l"):
